@@ -84,3 +84,33 @@ Definition counters_ok (t : tree) : bool :=
   let hs := all_handlers (tree_fuel t) (troot t) in
   forallb (fun m => Z.eqb (opt_default 0%Z (alookup m (tcounts t)))
                           (Z.of_nat (length (filter (fun ms => mem m ms) hs)))) methods_list.
+
+(* which component is broken where (diagnostics for the report) *)
+Definition local_report (trace : bool) (n : node) : list bytes :=
+  (if index_exact n then [] else [bs "index-exact@" ++ npat n]) ++
+  (if idx_ok_b n then [] else [bs "idx-ok@" ++ npat n]) ++
+  (if handlers_ok trace n then [] else [bs "handlers@" ++ npat n]) ++
+  (if sorted_nat (map (fun ch => stype_rank (styp (nseg ch))) (nchildren n)) then [] else [bs "kind-order@" ++ npat n]) ++
+  (if forallb (fun ch => beqb (npat ch) (npat n ++ sval (nseg ch))) (nchildren n) then [] else [bs "pattern@" ++ npat n]) ++
+  (if forallb (fun ch => match sval (nseg ch) with [] => false | _ => true end) (nchildren n) then [] else [bs "empty-label@" ++ npat n]).
+
+Fixpoint tree_report (fuel : nat) (trace : bool) (names : list bytes) (n : node) : list bytes :=
+  match fuel with
+  | O => [bs "fuel"]
+  | S f =>
+    local_report trace n ++
+    flat_map (fun ch =>
+               let s := nseg ch in
+               if is_string ch then tree_report f trace names ch
+               else (if mem (sname s) names then [bs "name-reused@" ++ npat ch] else []) ++ tree_report f trace (sname s :: names) ch)
+            (nchildren n)
+  end.
+
+Definition inv_report (t : tree) : list bytes :=
+  (if root_ok t then [] else [bs "root"]) ++
+  (if index_exact (troot t) then [] else [bs "index-exact@root"]) ++
+  (if idx_ok_b (troot t) then [] else [bs "idx-ok@root"]) ++
+  (if sorted_nat (map (fun ch => stype_rank (styp (nseg ch))) (nchildren (troot t))) then [] else [bs "kind-order@root"]) ++
+  flat_map (fun ch => let s := nseg ch in
+                      if is_string ch then tree_report (tree_fuel t) (has_trace t) [] ch
+                      else tree_report (tree_fuel t) (has_trace t) [sname s] ch) (nchildren (troot t)).
